@@ -212,7 +212,7 @@ impl<T: Qcow2IoOps> Qcow2Dev<T> {
                 let cls = HostCluster(host_cluster);
                 let slice_idx = cls.rb_slice_index(info);
 
-                refblock.decrement(slice_idx).unwrap();
+                refblock.decrement(slice_idx)?;
                 if first_zero && refblock.get(slice_idx).is_zero() {
                     self.free_cluster_offset
                         .fetch_min(host_cluster, Ordering::Relaxed);
@@ -258,7 +258,10 @@ impl<T: Qcow2IoOps> Qcow2Dev<T> {
 
         // if rb becomes update, it has been committed in read map already
         if !slice.is_update() {
-            let off = top_e.get_value() + slice_off as u64;
+            let off = top_e
+                .get_value()
+                .checked_add(slice_off as u64)
+                .ok_or("table entry points beyond the addressable range")?;
             slice.set_offset(Some(off));
 
             if !self.cluster_is_new(off >> info.cluster_bits()).await {
